@@ -290,9 +290,10 @@ pub fn eval(c: &Sx) -> String {
         // (sv-json a b c)
         "sv-json" => {
             let sv = SemanticVersion::new(l[1].int() as u32, l[2].int() as u32, l[3].int() as u32);
-            let v = serde_json::to_value(&sv).expect("to_value");
+            // a serialization failure is an observation (the oracle reports it with this case), not an abort
+            let v = match serde_json::to_value(&sv) { Ok(v) => v, Err(_) => return "(enc err) (dec err) (str err) (eq 0)".into() };
             let back: Result<SemanticVersion, String> = serde_json::from_value(v.clone()).map_err(|e| e.to_string());
-            let back2: Result<SemanticVersion, String> = serde_json::from_str(&serde_json::to_string(&sv).unwrap()).map_err(|e| e.to_string());
+            let back2: Result<SemanticVersion, String> = match serde_json::to_string(&sv) { Ok(t) => serde_json::from_str(&t).map_err(|e| e.to_string()), Err(e) => Err(e.to_string()) };
             let f = |r: &Result<SemanticVersion, String>| match r { Ok(v) => format!("(ok {})", sv_t(v)), Err(_) => "err".into() };
             let eq = back.as_ref().map(|b| *b == sv).unwrap_or(false) && back2.as_ref().map(|b| *b == sv).unwrap_or(false);
             format!("(enc {}) (dec {}) (str {}) (eq {})", json_sx(&v), f(&back), f(&back2), eq as u8)
@@ -428,7 +429,9 @@ pub fn eval(c: &Sx) -> String {
 
 fn run(out: &mut Out, case: String) {
     let sx = sexp::parse(&case).unwrap_or_else(|| panic!("malformed case {}", case));
-    let obs = eval(&sx);
+    // a panic inside the evaluated code (e.g. a serialization that fails where the harness expects success) is an
+    // observation: the oracle reports it with this case as the failing input
+    let obs = std::panic::catch_unwind(std::panic::AssertUnwindSafe(|| eval(&sx))).unwrap_or_else(|_| "(harness-panic 1)".to_string());
     out.emit(&case, &obs);
 }
 
